@@ -149,7 +149,13 @@ def observe_assembly(vector, modules, **kw):
 
 
 def run_assembly(case):
-    """case: {"vector": elem, "modules": [elem...]} -> observation (+ typing of each element)"""
+    """case: {"vector": elem, "modules": [elem...]} -> observation (+ typing of each element);
+    "prime": class descriptions that are used (typing a record) before, in the same interpreter"""
+    for spec in case.get("prime") or []:
+        try:
+            get_class(spec)(mk_circular("ACGTTGCAAGCTAGGATCCA", "prime")).is_valid()
+        except Exception:  # noqa
+            pass
     try:
         vector = mk_entity(case["vector"], "vector")
         modules = [mk_entity(m, "mod%d" % i) for i, m in enumerate(case["modules"])]
